@@ -63,6 +63,9 @@ func runC17(p *chk.Prog, r *chk.Report) {
 	c17Send(p, r)
 	c17Pending(p, r)
 	c17Diff(p, r)
+	// what a (re)connection negotiated is what the updates of that connection are encoded with (NEGOTIATED, shared
+	// with C16): a capability remembered from an earlier connection makes the full re-send undecodable for the peer
+	c16Negotiated(p, r)
 }
 
 const sess = "(*internal/bgp/native.session)."
